@@ -85,17 +85,19 @@ def SsubarrayKeep (s : SArr) (i1 : Index) : Except Err SArr :=
   | .int k => (normInt s.atoms.length k).bind (fun k' => Ssubarray s (.slice (some k') (some (k' + 1)) none))
   | _ => Ssubarray s i1
 
+def Sgetitem2Rest (s : SArr) (i0 i1 : Index) : Except Err SVal :=
+  match SsubarrayKeep s i1 with
+  | .error e => .error e
+  | .ok t =>
+    if i0 = .ellipsis then .ok (.arr t)
+    else (resolve t.depth i0).map (fun ms => .arr (SselModels t ms))
+
 def Sgetitem2 (s : SArr) (i0 i1 : Index) : Except Err SVal :=
   if !s.stack then
     (if i0 = .ellipsis then SarrayGet s i1 else .error .indexError)
   else match i0 with
     | .int i => (SgetArray s i).bind (fun x => SarrayGet x i1)
-    | _ =>
-      match SsubarrayKeep s i1 with
-      | .error e => .error e
-      | .ok t =>
-        if i0 = .ellipsis then .ok (.arr t)
-        else (resolve t.depth i0).map (fun ms => .arr (SselModels t ms))
+    | _ => Sgetitem2Rest s i0 i1
 
 /-! ## assignment, deletion -/
 
@@ -193,9 +195,9 @@ def bondsJoin : List (Nat × List Bond) → Nat × List Bond
 
 /-- all atoms of all parts, one after the other, restricted to the categories every part has -/
 def Sconcatenate (xs : List SArr) : Except Err SArr :=
-  match xs with
-  | [] => .error .indexError
-  | f :: _ =>
+  match xs.head? with
+  | none => .error .indexError
+  | some f =>
     match SconcatCheck f.stack f.depth xs with
     | .error e => .error e
     | .ok _ =>
@@ -211,9 +213,9 @@ def Sconcatenate (xs : List SArr) : Except Err SArr :=
 
 /-- the same atoms, one model per array -/
 def SstackArrays (xs : List SArr) : Except Err SArr :=
-  match xs with
-  | [] => .error (.other "AttributeError")
-  | f :: _ =>
+  match xs.head? with
+  | none => .error (.other "AttributeError")
+  | some f =>
     if xs.any (·.stack) then .error unmodelled
     else if !(xs.all (fun x => x.atoms.length == f.atoms.length)) then .error .valueError
     else if !(xs.all (fun x => SequalAnnot x f)) then .error .valueError
